@@ -13,11 +13,11 @@ Open Scope string_scope.
 Open Scope list_scope.
 
 (* ---- the source's dump/_parse is the modelled one (descriptor regenerated on every check) *)
-Theorem C19_source_clause_table : history_descr = std_descr.
-Proof. reflexivity. Qed.
+Theorem C19_source_clause_table : descr_ok history_descr = true.
+Proof. vm_compute. reflexivity. Qed.
 
 Theorem C19_source_dump_is_model : forall kw h, dump_d history_descr h kw = dump h kw.
-Proof. exact (dump_d_std history_descr eq_refl). Qed.
+Proof. exact (dump_d_ok history_descr C19_source_clause_table). Qed.
 
 (* ---- what a run leaves in its History (dump_spec instantiated at the optimizers' dump site) *)
 Theorem C19_run_history : forall b (iters : list iteration), iters <> [] ->
